@@ -502,21 +502,41 @@ def run(rep):
 
     # ---- R14.3 -------------------------------------------------------------------
     new = find_def(mod, 'InterfaceClass.__new__')
-    sets = [n for n in walk_local(new) if isinstance(n, ast.Assign)
-            and isinstance(n.targets[0], ast.Subscript)
-            and isinstance(n.targets[0].slice, ast.Constant)
-            and n.targets[0].slice.value == '_CALL_CUSTOM_ADAPT']
-    okw = len(sets) == 1
-    own = inherited = False
-    if okw:
-        g = sets[0].parent
-        if isinstance(g, ast.If):
-            t = norm_src(g.test)
-            own = "'__adapt__' in needs_custom_class" in t
-            inherited = '_CALL_CUSTOM_ADAPT' in t
+    # over path summaries: the flag is stored in the new class's namespace
+    # exactly when __adapt__ is among the interface methods, or the class being
+    # derived from already carries the flag
+    pw, kinds, inh = [], set(), set()
+    for ps in _S(new):
+        own = None
+        flag = None
+        for c, t, p in ps.order:
+            if c.startswith("'__adapt__' in "):
+                own = t
+            if c == "getattr(cls, '_CALL_CUSTOM_ADAPT', None)" or \
+                    c.startswith("hasattr(cls, '_CALL_CUSTOM_ADAPT'") or \
+                    c == 'cls._CALL_CUSTOM_ADAPT':
+                flag = t
+        st = [e for e in ps.stores() if isinstance(e.r, ast.Subscript)
+              and _nt(e.r.slice) == "'_CALL_CUSTOM_ADAPT'"]
+        if own is None:
+            if st:
+                pw.append('the flag is written without looking for __adapt__')
+            continue
+        kinds.add(own)
+        if flag is not None:
+            inh.add(flag)
+        need = bool(own) or bool(flag)
+        if need != (len(st) == 1) or len(st) > 1:
+            pw.append("__adapt__ given: %s, inherited flag: %s, flag stores: %d"
+                      % (own, flag, len(st)))
+    if kinds != {True, False}:
+        pw.append('cases seen %s' % sorted(kinds))
+    okw, own = not pw, not pw
+    inherited = inh == {True, False}
     rep.check('R14.3', 'InterfaceClass.__new__', okw and own,
               'the flag _CALL_CUSTOM_ADAPT is written when __adapt__ is among '
-              'the interface methods', construct='writer', node=new)
+              'the interface methods (or the flag is inherited)' if not pw else
+              {'problems': sorted(set(pw))[:3]}, construct='writer', node=new)
     f = u.func('IB__call__')
     probes = [c for n in ccfg(f).nodes for c in node_calls(n)
               if c.a[0] in ('PyDict_GetItemString', 'PyObject_HasAttrString',
